@@ -245,6 +245,7 @@ pub fn run(ctx: &mut Ctx) {
     let _ = server;
     rt.shutdown_timeout(Duration::from_millis(300));
     reverse_proxy_sessions(ctx);
+    idle_tunnels_seen_from_the_client(ctx);
 }
 
 /// the session timer of a reverse-proxy connection: an HTTP/3 session on the reverse-proxy host whose streams have all
@@ -311,6 +312,145 @@ fn reverse_proxy_sessions(ctx: &mut Ctx) {
                 "session_not_released",
                 &format!("{}: {} ms after the stream had ended and with no stream open the endpoint still kept the QUIC connection (its session task and socket are not released)", desc, after.as_millis()),
             );
+        }
+    }
+}
+
+
+/// An established CONNECT tunnel whose two ends fall silent (real codecs over in-memory transports, the real direct forwarder
+/// to a loopback origin that holds the connection open and says nothing, wall clock): T after the last byte - and no later than
+/// 2T plus scheduling slack - the endpoint must have ended the tunnel *towards the client* (HTTP/1.1: the connection is closed;
+/// HTTP/2: the stream is ended or reset) and towards the origin (its connection is closed); not before T.
+fn idle_tunnels_seen_from_the_client(ctx: &mut Ctx) {
+    use trusttunnel::verif::vlive;
+    const T_MS: u64 = 500;
+    let origin_l = TcpListener::bind("127.0.0.1:0").unwrap();
+    let origin = origin_l.local_addr().unwrap();
+    let origin_closed = Arc::new(std::sync::Mutex::new(Vec::<(Instant, Instant)>::new()));
+    {
+        let oc = origin_closed.clone();
+        std::thread::spawn(move || {
+            for s in origin_l.incoming() {
+                let Ok(mut s) = s else { continue };
+                let oc = oc.clone();
+                std::thread::spawn(move || {
+                    let opened = Instant::now();
+                    let _ = s.set_read_timeout(Some(Duration::from_secs(8)));
+                    let mut buf = [0u8; 1024];
+                    loop {
+                        match s.read(&mut buf) {
+                            Ok(0) | Err(_) => break,
+                            Ok(_) => {}
+                        }
+                    }
+                    oc.lock().unwrap().push((opened, Instant::now()));
+                });
+            }
+        });
+    }
+    let settings = Settings::builder()
+        .listen_address(("127.0.0.1", 1))
+        .unwrap()
+        .listen_protocols(ListenProtocolSettings { http1: Some(Http1Settings::builder().build()), http2: Some(Http2Settings::builder().build()), quic: None })
+        .allow_private_network_connections(true)
+        .tcp_connections_timeout(Duration::from_millis(T_MS))
+        .client_listener_timeout(Duration::from_secs(60))
+        .build()
+        .unwrap();
+    let hosts = TlsHostsSettings::builder()
+        .main_hosts(vec![TlsHostInfo { hostname: "localhost".into(), cert_chain_path: FIXTURE_PEM.into(), private_key_path: FIXTURE_PEM.into(), allowed_sni: vec![] }])
+        .build()
+        .unwrap();
+    let core = Arc::new(Core::new(settings, None, hosts, Shutdown::new()).unwrap());
+    trusttunnel::verif::hooks::reset();
+    let rt = tokio::runtime::Builder::new_multi_thread().worker_threads(2).enable_all().build().unwrap();
+    for proto in ["h1", "h2"] {
+        for payload in [true, false] {
+            let core = core.clone();
+            let before = origin_closed.lock().unwrap().len();
+            let desc = format!("{} CONNECT tunnel to a silent origin, idle timeout {} ms, {}", proto, T_MS, if payload { "one byte relayed, then silence" } else { "no payload at all" });
+            ctx.stat("idle_tunnels_seen_from_the_client");
+            // Ok(ms from the last activity to the end seen by the client) / Err(what went wrong)
+            let r: Result<u64, String> = rt.block_on(async move {
+                let target = origin.to_string();
+                let patience = Duration::from_millis(2 * T_MS + SLACK_MS + 1500);
+                if proto == "h1" {
+                    let mut s = vlive::open_h1(&core, "localhost");
+                    s.send(format!("CONNECT {} HTTP/1.1\r\nHost: {}\r\n\r\n", target, target).as_bytes());
+                    let t0 = Instant::now();
+                    while !s.received.windows(4).any(|w| w == b"\r\n\r\n") {
+                        tokio::time::sleep(Duration::from_millis(5)).await;
+                        s.poll();
+                        if s.eof || t0.elapsed() > Duration::from_secs(3) {
+                            return Err(format!("no response to the CONNECT (got {:?})", String::from_utf8_lossy(&s.received)));
+                        }
+                    }
+                    if !s.received.starts_with(b"HTTP/1.1 200") {
+                        return Err(format!("CONNECT answered {:?}", String::from_utf8_lossy(&s.received)));
+                    }
+                    if payload {
+                        s.send(b"x");
+                    }
+                    let last = Instant::now();
+                    loop {
+                        tokio::time::sleep(Duration::from_millis(10)).await;
+                        s.poll();
+                        if s.eof {
+                            return Ok(last.elapsed().as_millis() as u64);
+                        }
+                        if last.elapsed() > patience {
+                            return Err(format!("{} ms after the last activity the client's connection is still open (the endpoint's session task ended: {})", last.elapsed().as_millis(), s.server_ended()));
+                        }
+                    }
+                } else {
+                    let Some(mut sess) = vlive::open_h2(&core, "localhost").await else { return Err("could not open the HTTP/2 session".into()) };
+                    let Some(mut st) = sess.request("CONNECT", &target, &[], false).await else { return Err("CONNECT refused by the client library".into()) };
+                    let t0 = Instant::now();
+                    while st.status.is_none() {
+                        tokio::time::sleep(Duration::from_millis(5)).await;
+                        st.poll();
+                        if st.failed || t0.elapsed() > Duration::from_secs(3) {
+                            return Err("no response to the CONNECT".into());
+                        }
+                    }
+                    if st.status != Some(200) {
+                        return Err(format!("CONNECT answered {:?}", st.status));
+                    }
+                    if payload {
+                        st.send(b"x", false);
+                    }
+                    let last = Instant::now();
+                    loop {
+                        tokio::time::sleep(Duration::from_millis(10)).await;
+                        st.poll();
+                        if st.ended || st.failed {
+                            return Ok(last.elapsed().as_millis() as u64);
+                        }
+                        if last.elapsed() > patience {
+                            return Err(format!("{} ms after the last activity the client's stream is still open", last.elapsed().as_millis()));
+                        }
+                    }
+                }
+            });
+            match r {
+                Err(e) => ctx.oracle_failure("idle_tunnel_not_closed", &format!("{}: {}", desc, e)),
+                Ok(ms) => {
+                    if ms + 60 < T_MS {
+                        ctx.oracle_failure("idle_tunnel_closed_early", &format!("{}: ended towards the client {} ms after the last activity", desc, ms));
+                    }
+                    if ms > 2 * T_MS + SLACK_MS {
+                        ctx.oracle_failure("idle_tunnel_not_closed", &format!("{}: ended towards the client only {} ms after the last activity (2T = {} ms)", desc, ms, 2 * T_MS));
+                    }
+                    // the origin's side goes with it
+                    let t0 = Instant::now();
+                    while origin_closed.lock().unwrap().len() <= before && t0.elapsed() < Duration::from_millis(1500) {
+                        std::thread::sleep(Duration::from_millis(10));
+                    }
+                    if origin_closed.lock().unwrap().len() <= before {
+                        ctx.oracle_failure("idle_tunnel_not_closed", &format!("{}: the tunnel ended towards the client but the connection to the origin is still open", desc));
+                    }
+                }
+            }
         }
     }
 }
